@@ -62,7 +62,13 @@ def resolve_value(p: Program, expr: ast.AST, inst, _depth: int = 0):
                 continue
             if b[0] == 'default':
                 from .cfg import Inst
-                expr, inst = b[1], Inst(b[2], None, None, {})
+                # a default is evaluated where the function is defined: for a lambda / nested function the enclosing activation
+                if getattr(owner, 'lexical', None) is not None:
+                    expr, inst = b[1], owner.lexical
+                elif owner.unit.parent is not None:
+                    expr, inst = b[1], _pseudo_parent(owner)
+                else:
+                    expr, inst = b[1], Inst(b[2], None, None, {})
                 continue
             return expr, owner
         if len(defs) == 1 and defs[0][0] in ('assign', 'annassign'):
